@@ -258,7 +258,7 @@ func treeKey(o *ProposedOutput) string {
 }
 
 func checkC02(run *mon.Run, rng *mon.Rand, thorough bool) {
-	run.Rule = "bounded-exhaustive DFS on copy-on-write branches (3 leaves, <=3 live outputs, 4 tree variants incl. a single-leaf tree and overlapping trees; alphabet propose/delete/advance/finalize; state-digest memoisation) + seeded random long histories with re-included leaves, deletions and re-proposals. Distinct non-trivial = re-submissions (leaf, output, tree variant / history position) of an already paid withdrawal that the chain rejected"
+	run.Rule = "bounded-exhaustive DFS on copy-on-write branches (3 leaves, <=3 live outputs, 4 tree variants incl. a single-leaf tree and overlapping trees; alphabet propose/delete/advance/finalize; state-digest memoisation) + seeded random long histories with re-included leaves, deletions and re-proposals. Distinct non-trivial = re-submissions (leaf, output, tree variant / history position) of an already paid withdrawal that the chain rejected Plus: every paid claim re-submitted by privileged accounts and under an upper-case spelling of the recipient, and a re-entrant scenario (the same claim submitted from inside the payout transfer)."
 	run.Assumptions = []string{"withdrawal identity = leaf hash (collision-free)", "DFS depth bound: quick 6, thorough 8"}
 	for _, c := range []string{"C02.paid_at_most_once", "C02.claimed_query_agrees", "C02.claimed_query_other_bridge", "C02.recipient_credited_once", "C02.resubmission_rejected", "C02.first_payment_accepted", "C02.resubmission_by_anyone_rejected", "C02.respelled_recipient_not_paid_again"} {
 		run.Declare(c, 10)
